@@ -1,6 +1,7 @@
 package main
 
 import (
+	"encoding/json"
 	"flag"
 	"fmt"
 	"os"
@@ -23,9 +24,17 @@ func main() {
 	case "sweep":
 		cmdSweep(os.Args[2:])
 	default:
+		if f, ok := extraCmds[os.Args[1]]; ok {
+			f(os.Args[2:])
+			return
+		}
 		fatal("unknown command %s", os.Args[1])
 	}
 }
+
+var extraCmds = map[string]func(args []string){}
+
+func jsonIndent(v any) ([]byte, error) { return json.MarshalIndent(v, "", " ") }
 
 func cmdList(args []string) {
 	v, err := loadVerifier("/repo")
@@ -153,4 +162,21 @@ func candidateModel(o *Obligation) string {
 		ms = append(ms, strings.Trim(m[1], "|")+"="+strings.ReplaceAll(m[2], " ", ""))
 	}
 	return strings.Join(ms, " ")
+}
+
+func init() {
+	extraCmds["static"] = func(args []string) {
+		v, err := loadVerifier("/repo")
+		if err != nil {
+			fatal("%v", err)
+		}
+		for _, name := range args {
+			res, probs := v.runStatic(name)
+			b, _ := jsonIndent(res)
+			fmt.Println(string(b))
+			for _, p := range probs {
+				fmt.Println("PROBLEM", p.Key, "::", p.Msg)
+			}
+		}
+	}
 }
